@@ -43,3 +43,19 @@ package appctl
 //@   loop 4:
 //@     modifies nothing
 //@     invariant -1 <= rangeindex__3 && rangeindex__3 < 9223372036854775807
+
+//@ // Import of a share link (C20): a port range is refused only for the reason the message
+//@ // gives - in particular a single-port range (begin == end), which validation accepts and
+//@ // export produces, is not refused.
+//@ func URLToClientProfile(s string) (p *pb.ClientProfile, err error)
+//@   property C20
+//@   mode int
+//@   partial
+//@   posts_only
+//@   noframe
+//@   may_panic
+//@   assert_at "is greater than end port number": beginPort > endPort
+//@   assert_at "URL has invalid begin port number": beginPort < 1 || beginPort > 65535
+//@   assert_at "URL has invalid end port number": endPort < 1 || endPort > 65535
+//@   loop 1:
+//@     invariant true
